@@ -33,9 +33,10 @@ const WD_OBSERVE: Duration = Duration::from_secs(20);
 const WD_READ: Duration = Duration::from_secs(40);
 const WD_CLOSE: Duration = Duration::from_secs(30);
 
-/// ports of this process's live harness servers (registered under the lock
-/// that also covers the bind, so the port probe can tell "another of my
-/// servers got the port" from "the old listener is still there")
+/// port -> instance of the last harness server of this process that bound it
+/// (registered under the lock that also covers the bind, so the port probe can
+/// tell "another of my servers got the port since" from "the old listener is
+/// still there")
 static REG: Mutex<BTreeMap<u16, u64>> = Mutex::new(BTreeMap::new());
 /// hang candidates seen so far in this process (stops the run early)
 pub static HANGS: AtomicUsize = AtomicUsize::new(0);
@@ -690,7 +691,6 @@ pub fn run_case(out: &mut Out, seed: u64, shard: u64, case: u64, record: bool) -
     // (3) the old address after close returned
     let mut probe: Option<(String, Option<Value>)> = None;
     if close_ret.is_some() {
-        REG.lock().unwrap().remove(&addr.port());
         probe = Some(port_probe(addr, ctx.instance, &log, m, &ident));
     }
     let events = log.snapshot();
@@ -758,6 +758,7 @@ pub fn run_case(out: &mut Out, seed: u64, shard: u64, case: u64, record: bool) -
     for (u, o) in sc.panics.iter().zip(panic_out.iter()) {
         all.push((*u, "panic", o.as_ref(), false));
     }
+    let mut judged_end: Vec<(u64, Option<u64>)> = vec![];
     for (uid, pop, outcome, stays) in &all {
         let h = idx.get(uid).unwrap_or(&empty);
         let entered_before = h.enter.first().map(|e| *e < call).unwrap_or(false);
@@ -795,6 +796,7 @@ pub fn run_case(out: &mut Out, seed: u64, shard: u64, case: u64, record: bool) -
         // (2) close() returns only after the handler has ended
         let judged = entered_before || (detached && entered);
         if judged {
+            judged_end.push((*uid, h.ending()));
             match h.ending() {
                 Some(e) if e < ret => rep.count("handler_ended_before_close_returned", 1),
                 _ => rep.violate(
@@ -852,6 +854,24 @@ pub fn run_case(out: &mut Out, seed: u64, shard: u64, case: u64, record: bool) -
                 format!("C17:{m}:waiter-result-differs"),
                 json!({"ident": ident, "close_result": ret_ev.s, "waiter": w.json(),
                        "history": history_json(&events, 200)}),
+            );
+        }
+        // a released waiter means shutdown has finished: not before close() was
+        // even called, and not before the handlers shutdown has to wait for
+        if w.seq < call {
+            rep.violate(
+                format!("C17:{m}:waiter-released-before-close-called"),
+                json!({"ident": ident, "waiter": w.json(), "S_CLOSE_CALL.seq": call,
+                       "history": history_json(&events, 200)}),
+            );
+        } else if let Some((u, e)) =
+            judged_end.iter().find(|(_, e)| e.map(|e| e > w.seq).unwrap_or(true))
+        {
+            rep.violate(
+                format!("C17:{m}:waiter-released-before-handler-finished"),
+                json!({"ident": ident, "waiter": w.json(), "uid": u, "handler_end_seq": e,
+                       "uid_history": idx.get(u).map(|h| h.json()),
+                       "what": "a wait_for_shutdown() waiter was released while a handler that shutdown has to wait for had not ended"}),
             );
         }
         let start = events
@@ -913,8 +933,10 @@ fn port_probe(
         }
         Err(e) => {
             // accepted but not answered: who is listening?
+            // REG keeps the last harness server that bound each port; the lock
+            // also covers binds, so no server of ours is half-started here
             let g = REG.lock().unwrap();
-            if g.contains_key(&addr.port()) {
+            if g.get(&addr.port()) != Some(&old_instance) {
                 log.push("PORT_PROBE", 0, 0, "accepted by a newer harness server");
                 return ("port-reused-by-other-server".into(), None);
             }
